@@ -41,3 +41,58 @@ Example two_committers_one_loses :
   ref s = Some 1 /\ a_pc (acts s 0%nat) = PDone RTrue /\ a_pc (acts s 1%nat) = PDone RFalse /\
   hist s = [Some 1; Some 7].
 Proof. vm_compute. auto. Qed.
+
+(* ---------- the same ref stored as a loose file and/or an entry of packed-refs,
+   with any number of concurrent pack_refs (Model/PackedRefs.v) ---------- *)
+From DV Require PackedRefs PackedRefsP.
+Module Packed.
+Import PackedRefs PackedRefsP.
+
+(* with writers whose new values are new (every commit id is) and no deleter:
+   whatever the interleaving, a step of pack_refs — locking packed-refs, reading
+   the ref, rewriting packed-refs, pruning the loose file — never changes the
+   value a reader of the ref finds *)
+Theorem pack_refs_never_changes_a_ref : forall l0 p0 l sched i, fresh l0 p0 l ->
+  let s := run (init l0 p0 l) sched in
+  a_kind (acts s i) = KPack -> visible (step s i) = visible s.
+Proof.
+  intros l0 p0 l sched i F s K. apply step_visible; [apply run_inv; apply init_inv; exact F|].
+  intros E. pose proof (K_wf _ (run_inv sched _ (init_inv _ _ _ F)) i) as W. fold s in W. rewrite K, E in W. discriminate.
+Qed.
+Print Assumptions pack_refs_never_changes_a_ref.
+
+(* and the value changes only in the write of an update that holds the ref's
+   lock and whose condition is true of the value at that moment; it becomes the
+   value that update writes *)
+Theorem update_is_compare_and_swap_with_packing : forall l0 p0 l sched i, fresh l0 p0 l ->
+  let s := run (init l0 p0 l) sched in
+  visible (step s i) <> visible s ->
+  a_pc (acts s i) = SWrite /\ rlock s = Some i /\ cond (a_kind (acts s i)) (visible s) = true /\
+  visible (step s i) = newval (a_kind (acts s i)).
+Proof. intros l0 p0 l sched i F s. apply change_is_cas. apply run_inv. apply init_inv. exact F. Qed.
+Print Assumptions update_is_compare_and_swap_with_packing.
+
+(* the full statement — also with concurrent deleters — is false of the code as
+   it is: remove_if_equals does not take packed-refs.lock when the ref has no
+   packed entry, so a pack_refs that read the ref before the deletion writes it
+   back afterwards (known finding pack-refs-resurrects-deleted-ref) *)
+Theorem pack_refs_keeps_deleted_refs_deleted_refuted : exists l0 p0 l sched,
+  let s := run (init l0 p0 l) sched in
+  news l = [] /\ (forall i, exists r, a_pc (acts s i) = PEnd r) /\
+  a_kind (acts s 1%nat) = KDel 7 /\ a_pc (acts s 1%nat) = PEnd RTrue /\ visible s = Some 7.
+Proof.
+  exists (Some 7), None, [KPack; KDel 7], [0; 0; 1; 1; 1; 1; 1; 0; 0; 0; 0]%nat.
+  vm_compute. repeat split; try reflexivity.
+  intros [|[|[|i]]]; eexists; reflexivity.
+Qed.
+Print Assumptions pack_refs_keeps_deleted_refs_deleted_refuted.
+
+Example hypotheses_are_satisfiable : fresh (Some 0) (Some 0) [KPack; KSet 1; KPack; KCas 0 2; KRead].
+Proof. repeat split; try reflexivity; [repeat constructor; cbn; intuition discriminate|..]; cbn in H; intuition (subst; discriminate). Qed.
+
+(* two pack_refs and a writer: the schedule that used to bring back the older value *)
+Example two_packers_and_a_writer :
+  let s := run (init None (Some 0) [KPack; KSet 1; KPack]) [0; 0; 1; 1; 1; 0; 2; 2; 2; 2; 2; 2; 0; 0; 0]%nat in
+  visible s = Some 1.
+Proof. vm_compute. reflexivity. Qed.
+End Packed.
